@@ -45,3 +45,32 @@ void h_mig_data_destructor(void)
     thread_key_destructor_migration(m); /* leak check + double-free check */
     VF_REACH("destructor");
 }
+/* the public switches of migration: ABT_thread_set_callback (stored in the
+ * unit's migration data, which is created on first use), ABT_thread_set_migratable
+ * / ABT_thread_is_migratable (one type bit; the primary ULT and main schedulers
+ * never become migratable) */
+static void the_cb(ABT_thread t, void *a) { }
+void h_api_mig_switches(void)
+{
+    static ABTI_thread th; static ABTI_thread_mig_data existing; gp_ABTI_global = &glob; lp_ABTI_local = NULL;
+    int has; tab_val = has ? &existing : NULL; { int f; set_fail = !!f; } n_get = n_set = 0; { ABTI_thread nd; th = nd; }
+    int which; VF_ASSUME(0 <= which && which <= 2); int nullh; ABT_thread h = nullh ? ABT_THREAD_NULL : (ABT_thread)&th; ABTI_thread_type ty0 = th.type; int cbarg;
+    if (which == 0) {
+        void (*cb0)(ABT_thread, void *) = existing.f_migration_cb; void *arg0 = existing.p_migration_cb_arg;
+        int r = ABT_thread_set_callback(h, the_cb, &cbarg);
+        if (nullh) VF_ASSERT(r == ABT_ERR_INV_THREAD && n_get == 0 && n_set == 0, "NULL handle refused, nothing allocated");
+        else if (r == ABT_SUCCESS) { ABTI_thread_mig_data *m = (ABTI_thread_mig_data *)tab_val; VF_ASSERT(m != NULL && m->f_migration_cb == the_cb && m->p_migration_cb_arg == &cbarg && (!has || m == &existing), "the callback and its argument are stored in THIS unit's migration data (the existing record if there is one)"); if (!has) free(m); }
+        else VF_ASSERT(r == ABT_ERR_MEM && !has && tab_val == NULL && existing.f_migration_cb == cb0 && existing.p_migration_cb_arg == arg0, "the record cannot be created: error, nothing registered");
+        VF_ASSERT(th.type == ty0, "the unit's type is not touched");
+    } else if (which == 1) {
+        int on; int r = ABT_thread_set_migratable(h, on ? ABT_TRUE : ABT_FALSE);
+        if (nullh) VF_ASSERT(r == ABT_ERR_INV_THREAD, "NULL handle refused");
+        else if (ty0 & (ABTI_THREAD_TYPE_PRIMARY | ABTI_THREAD_TYPE_MAIN_SCHED)) VF_ASSERT(r == ABT_SUCCESS && th.type == ty0, "the primary ULT and main schedulers: accepted (1.x API) but never changed");
+        else VF_ASSERT(r == ABT_SUCCESS && th.type == (on ? (ty0 | ABTI_THREAD_TYPE_MIGRATABLE) : (ty0 & ~ABTI_THREAD_TYPE_MIGRATABLE)), "exactly the MIGRATABLE bit is set / cleared");
+        VF_ASSERT(n_get == 0 && n_set == 0, "no allocation");
+    } else {
+        ABT_bool out = 7; int r = ABT_thread_is_migratable(h, &out);
+        if (nullh) VF_ASSERT(r == ABT_ERR_INV_THREAD, "NULL handle refused"); else VF_ASSERT(r == ABT_SUCCESS && out == ((ty0 & ABTI_THREAD_TYPE_MIGRATABLE) ? ABT_TRUE : ABT_FALSE) && th.type == ty0, "reports the bit, changes nothing");
+    }
+    VF_REACH("mig switches"); VF_COVER(which == 0 && !nullh && !has && tab_val != NULL, "callback on a fresh record");
+}
